@@ -84,6 +84,20 @@ func checkC04(ctx *Ctx) {
 				k = 1
 			}
 			cs := genShape(r, vs, vals, k)
+			// the shape is only valid if the chosen versions really ascend pairwise (a pool whose
+			// order is not transitive — maven — cannot be sorted globally)
+			asc := true
+			for a := 0; a < len(cs) && asc; a++ {
+				for b := a + 1; b < len(cs); b++ {
+					if cmpS(e, cs[a].v, cs[b].v) >= 0 || cmpS(e, cs[b].v, cs[a].v) <= 0 {
+						asc = false
+						break
+					}
+				}
+			}
+			if !asc {
+				continue
+			}
 			rng := renderVers(r, scheme, cs, true)
 			key := ""
 			for _, c := range cs {
@@ -122,7 +136,13 @@ func checkC04(ctx *Ctx) {
 					exp = "t"
 				}
 				if got != exp {
-					res.violate(Violation{Eco: scheme, Kind: "union-of-intervals", Input: map[string]any{"range": rng, "probe": vs[i], "sorted_constraints": fmtCons(cs)}, Expected: exp, Actual: got})
+					v := Violation{Eco: scheme, Kind: "union-of-intervals", Input: map[string]any{"range": rng, "probe": vs[i], "sorted_constraints": fmtCons(cs)}, Expected: exp, Actual: got}
+					all := []any{vals[i]}
+					for _, c := range cs {
+						all = append(all, c.v)
+					}
+					classifyOrder(e, &v, all...)
+					res.violate(v)
 				}
 				if len(cases) < 40000 {
 					cases = append(cases, [2]string{rng, vs[i]})
@@ -134,6 +154,57 @@ func checkC04(ctx *Ctx) {
 		}
 		corrVers(ctx, "VERS.union/"+scheme, cases)
 	}
+	// cross-scheme sequences: the SAME constraint text evaluated under every scheme in turn, in
+	// rotating order, within this one process — a result must depend on the scheme named in the
+	// range only, never on which scheme saw that text before (call history, shared caches)
+	common := []string{"0.9.0", "1.0.0", "1.0.0-1", "1.0.0-alpha", "1.0.0-beta", "1.0.0-rc1", "1.5.0", "2.0.0", "2.0.0-1", "1.0", "1.0-1", "10.0.0", "1.0.0a1", "1.0.0.1"}
+	nCross := 0
+	for round := 0; round < 1; round++ {
+		for i, a := range common {
+			for j, b := range common {
+				if i == j {
+					continue
+				}
+				for _, shape := range [][2]string{{">=", "<="}, {"<", ">="}} {
+					text := shape[0] + a + "|" + shape[1] + b
+					for k := range schemeNames {
+						scheme := schemeNames[(k+round*4+i)%len(schemeNames)]
+						e := ecoByName(schemeEco[scheme])
+						pa, pb := e.Parse(a), e.Parse(b)
+						if !pa.OK || !pb.OK || !boundOK(scheme, a) || !boundOK(scheme, b) || cmpS(e, pa.Val, pb.Val) == 0 {
+							continue
+						}
+						cs := []vcons{{shape[0], a, pa.Val}, {shape[1], b, pb.Val}}
+						if cmpS(e, pa.Val, pb.Val) > 0 {
+							cs = []vcons{cs[1], cs[0]}
+						}
+						// valid shape only: (upper, lower) = two rays, (lower, upper) = one interval
+						for _, pr := range common {
+							pp := e.Parse(pr)
+							if !pp.OK {
+								continue
+							}
+							if !consistentSet(e, []any{pa.Val, pb.Val, pp.Val}) {
+								continue
+							}
+							want := unionSpec(e, scheme, cs, pp.Val)
+							ok, isErr, pan := versContains("vers:"+scheme+"/"+text, pr)
+							res.Evaluations++
+							nCross++
+							exp := "f"
+							if want {
+								exp = "t"
+							}
+							if got := vresString(ok, isErr, pan); got != exp {
+								res.violate(Violation{Eco: scheme, Kind: "union-of-intervals/cross-scheme-sequence", Input: map[string]any{"range": "vers:" + scheme + "/" + text, "probe": pr, "note": "same constraint text evaluated under other schemes earlier in this process"}, Expected: exp, Actual: got})
+							}
+						}
+					}
+				}
+			}
+		}
+	}
+	res.Distribution["cross_scheme_cases"] = nCross
 	res.DistinctNontrivial = len(distinct)
 	res.Distribution["constraints_per_range"] = shapes
 }
